@@ -4,6 +4,7 @@ import (
 	"bufio"
 	"bytes"
 	stdflate "compress/flate"
+	stdgzip "compress/gzip"
 	stdzlib "compress/zlib"
 	"errors"
 	"fmt"
@@ -1861,6 +1862,60 @@ func TestT31TruncatedPackedEntries(t *testing.T) {
 					t.Errorf("seed %d, %d-byte stream cut at %d, %s: %d bytes err=%v; all at once: %d bytes err=%v", sd, len(s), cut, v.name, len(got), err, len(ref), referr)
 				}
 			}
+		}
+	}
+}
+
+// T32 (defect #28): a gzip header whose FEXTRA field is at least as large as the bufio buffer (4096) is read by one
+// large Read that bufio passes straight to the source; an error the source returns together with the last bytes of
+// the field (and never again) must still be what the Reader ends with.
+type t32Src struct {
+	data   []byte
+	cuts   []int
+	pos    int
+	err    error
+	failed bool
+}
+
+func (s *t32Src) Read(p []byte) (int, error) {
+	if s.failed {
+		return 0, io.EOF
+	}
+	for _, c := range s.cuts {
+		if c > s.pos {
+			n := copy(p, s.data[s.pos:c])
+			s.pos += n
+			if s.pos == s.cuts[len(s.cuts)-1] {
+				s.failed = true
+				return n, s.err
+			}
+			return n, nil
+		}
+	}
+	s.failed = true
+	return 0, s.err
+}
+
+func TestT32LargeExtraFieldKeepsSourceError(t *testing.T) {
+	plain := bytes.Repeat([]byte("payload "), 100)
+	for _, xlen := range []int{100, 4095, 4096, 5000, 65535} {
+		var zb bytes.Buffer
+		zw := stdgzip.NewWriter(&zb)
+		zw.Extra = bytes.Repeat([]byte{0xAB}, xlen)
+		zw.Write(plain)
+		zw.Close()
+		boom := errors.New("boom")
+		src := &t32Src{data: zb.Bytes(), cuts: []int{12, 12 + xlen}, err: boom}
+		r, err := gzip.NewReader(src)
+		if err == nil {
+			var got []byte
+			got, err = io.ReadAll(r)
+			if !bytes.HasPrefix(plain, got) {
+				t.Fatalf("xlen %d: bytes returned are not a prefix of the data", xlen)
+			}
+		}
+		if err != boom {
+			t.Fatalf("xlen %d: Reader ended with %v; the source had reported %v", xlen, err, boom)
 		}
 	}
 }
